@@ -651,7 +651,11 @@ func runB12(p *an.Prog, r *an.Result) {
 		r.Bad("-", "Range methods not found", token.NoPos, "anchor not resolved")
 		return
 	}
+	paramField := map[ssa.Value]string{}
 	fieldOf := func(fn *ssa.Function, v ssa.Value) string {
+		if f, ok := paramField[v]; ok {
+			return f
+		}
 		d := describe(p, v)
 		switch {
 		case strings.HasSuffix(d, ".b"):
@@ -661,9 +665,36 @@ func runB12(p *an.Prog, r *an.Result) {
 		}
 		return ""
 	}
+	// Len may delegate to a function of the two ends (spanLen(r.b, r.e)): its parameters are the fields
+	lenBody := lenFn
+	{
+		var rets []*ssa.Return
+		an.EachInstr(lenFn, func(in ssa.Instruction) {
+			if ret, ok := in.(*ssa.Return); ok {
+				rets = append(rets, ret)
+			}
+		})
+		if len(rets) == 1 {
+			if c, ok := resultsOf(rets[0])[0].(*ssa.Call); ok {
+				if h := c.Call.StaticCallee(); h != nil && h.Blocks != nil && p.InModule(h) && len(h.Params) == len(c.Call.Args) {
+					all := true
+					for i, a := range c.Call.Args {
+						if f := fieldOf(lenFn, a); f != "" {
+							paramField[h.Params[i]] = f
+						} else {
+							all = false
+						}
+					}
+					if all {
+						lenBody = h
+					}
+				}
+			}
+		}
+	}
 	// Len: every return is 0 under e < b, or e+1-b under !(e < b), or max(0, e+1-b)
 	okLen := true
-	an.EachInstr(lenFn, func(in ssa.Instruction) {
+	an.EachInstr(lenBody, func(in ssa.Instruction) {
 		ret, ok := in.(*ssa.Return)
 		if !ok {
 			return
@@ -789,14 +820,26 @@ func runB12(p *an.Prog, r *an.Result) {
 		if !step || init == nil || ph.Referrers() == nil {
 			return
 		}
-		for _, u := range *ph.Referrers() {
-			bo, ok := u.(*ssa.BinOp)
-			if !ok || bo.X != ssa.Value(ph) {
-				continue
+		// the loop test compares the counter - or, in a rotated loop, the counter just stepped - with the bound
+		var tests []*ssa.BinOp
+		an.EachInstr(arrFn, func(x ssa.Instruction) {
+			if bo, ok := x.(*ssa.BinOp); ok {
+				if t := norm(bo.X); t.v == ssa.Value(ph) && (t.off == 0 || t.off == 1) {
+					switch bo.Op {
+					case token.LSS, token.LEQ:
+						tests = append(tests, bo)
+					}
+				}
 			}
+		})
+		for _, bo := range tests {
 			if c, isC := an.ConstInt(init); isC && c == 0 && bo.Op == token.LSS && lenCall != nil && bo.Y == ssa.Value(lenCall) {
 				// what is appended is start + k
 				an.EachInstr(arrFn, func(in2 ssa.Instruction) {
+					// ... or Index(k), which is start + k (checked above)
+					if c2, ok := in2.(*ssa.Call); ok && c2.Call.StaticCallee() == idxFn && len(c2.Call.Args) == 2 && norm(c2.Call.Args[1]).v == ssa.Value(ph) && norm(c2.Call.Args[1]).off == 0 {
+						byCount = true
+					}
 					if mi, ok := in2.(*ssa.MakeInterface); ok {
 						lf := linOf(mi.X, 0)
 						okForm := lf.c == 0 && len(lf.coef) == 2
